@@ -18,7 +18,10 @@
    returns a fresh index; `SegQueue` is FIFO; the value closure passed to `allocate` does not
    re-enter `allocate` on the same handle (documented for `intern`: "may result in a deadlock"). *)
 From Salsa Require Import Base.
-From Salsa.Alloc Require Import PageK.   (* <- swap point for translator-generated k_make_id/k_split_id *)
+(* SWAP POINT (one line): PageKGen = kernels translated from the Rust source (coq/gen/Kernels.v);
+   PageK = the hand-transcribed stand-in with the same interface.  Every file of this layer gets
+   the kernels through this export. *)
+From Salsa.Alloc Require Export PageKGen.
 
 Definition id := (N * N)%type.          (* (index, generation) — what `Id` compares by *)
 
